@@ -75,6 +75,22 @@ theorem C09_outcomes_exclusive_partial (L : LogicData) (W : Weights)
   obtain ⟨hM, hc⟩ := Ptx.Props.C02.C02_countermodel_partial L W hcore hW hT hF htb arg' t' hd' b hb hsat hg
   exact C09_verdict_unique_partial L hsound arg arg' hsame t hd hclosed _ hM _ _ hc
 
+/-- (first-order branches: quantifier rules included, weights for every row)
+    The two outcome classes exclude each other across ALL searches: if some legal derivation for
+    `arg` closes, then no legal derivation for any re-ordering / duplication `arg'` of it reaches a
+    tableau with a saturated (ground) open branch — whatever the options, tie-break order, build or
+    step loop of either search.  (C01 for the closed one, the Hintikka lemma C02 for the open one.) -/
+theorem C09_outcomes_exclusive_fo_partial (L : LogicData) (W : Weights)
+    (hsound : L.soundCoreB = true) (hcore : L.hintikkaCoreB = true)
+    (hW : L.measureOKB W = true)
+    (hT : L.T.vals.contains .T = true) (hF : L.T.vals.contains .F = true) (htb : L.trunkBackB = true)
+    (arg arg' : Argument) (hsame : SameArgument arg arg')
+    (t : Tableau) (hd : Deriv L.soundPart (trunk L arg) t) (hclosed : t.allClosed = true)
+    (t' : Tableau) (hd' : Deriv L (trunk L arg') t')
+    (b : Branch) (hb : b ∈ t') (hsat : L.saturatedB b = true) (hg : b.foB L = true) : False := by
+  obtain ⟨hM, hc⟩ := Ptx.Props.C02.C02_countermodel_fo_partial L W hcore hW hT hF htb arg' t' hd' b hb hsat hg
+  exact C09_verdict_unique_partial L hsound arg arg' hsame t hd hclosed _ hM _ _ hc
+
 /-- non-vacuity: a permuted, duplicated premise list is the same argument -/
 example : SameArgument ⟨[.atom 0 0, .atom 1 0], .atom 2 0⟩ ⟨[.atom 1 0, .atom 0 0, .atom 1 0], .atom 2 0⟩ := by
   refine ⟨fun p => ?_, rfl⟩
